@@ -14,3 +14,6 @@ def check(ctx):
     satisfy.r_consistency_gate(ctx, 'R18.2')
     satisfy.r_single_caller(ctx, 'R18.3', 'named::to_witness_node', {satisfy.SAT})
     satisfy.r_single_caller(ctx, 'R18.4', satisfy.SAT, {'CompiledProgram::satisfy'})
+    if ctx.tier == 'thorough':
+        from .. import witness
+        witness.run(ctx, 'R18.W', ['W3'])
